@@ -55,88 +55,97 @@ def _base_name(expr):
     return None
 
 
-def containment_guards(fi):
-    """[(if_node, result_var, root_var, form)] for guards of a recognised containment form whose body raises"""
-    out = []
-    for n in walk_own(fi.node):
-        if not (isinstance(n, ast.If) and any(isinstance(s, ast.Raise) for s in n.body)):
-            continue
-        t = n.test
-        # form 1:  R != root and not R.startswith(root + sep)
-        conj = t.values if isinstance(t, ast.BoolOp) and isinstance(t.op, ast.And) else [t]
-        sw = None
-        ne = None
-        for c in conj:
-            if isinstance(c, ast.UnaryOp) and isinstance(c.op, ast.Not) and isinstance(c.operand, ast.Call) and isinstance(c.operand.func, ast.Attribute) \
-                    and c.operand.func.attr == "startswith" and isinstance(c.operand.func.value, ast.Name) and len(c.operand.args) == 1:
-                base = _sep_suffix(c.operand.args[0])
-                if base is not None and _base_name(base):
-                    sw = (c.operand.func.value.id, _base_name(base))
-                elif _base_name(c.operand.args[0]):
-                    sw = (c.operand.func.value.id, _base_name(c.operand.args[0]), "nosep")
-            if isinstance(c, ast.Compare) and len(c.ops) == 1 and isinstance(c.ops[0], ast.NotEq) and isinstance(c.left, ast.Name) and isinstance(c.comparators[0], ast.Name):
-                ne = {c.left.id, c.comparators[0].id}
-        if sw is not None:
-            if len(sw) == 3:
-                out.append((n, sw[0], sw[1], "startswith-without-separator"))
-            elif len(conj) == 1 or (ne == {sw[0], sw[1]} and len(conj) == 2):
-                out.append((n, sw[0], sw[1], "startswith" if len(conj) == 2 else "startswith-strict"))
-            continue
-        # form 2: os.path.commonpath([root, R]) != root
-        if isinstance(t, ast.Compare) and len(t.ops) == 1 and isinstance(t.ops[0], ast.NotEq) and isinstance(t.left, ast.Call) and norm(t.left.func) == "os.path.commonpath" \
-                and isinstance(t.left.args[0], (ast.List, ast.Tuple)) and len(t.left.args[0].elts) == 2 and isinstance(t.comparators[0], ast.Name):
-            names = [norm(e) for e in t.left.args[0].elts]
-            root = t.comparators[0].id
-            if root in names:
-                other = [x for x in names if x != root]
-                if other:
-                    out.append((n, other[0], root, "commonpath"))
-            continue
-        # form 3: os.path.relpath(R, root).startswith('..')   (coarse but safe)
-        if isinstance(t, ast.Call) and isinstance(t.func, ast.Attribute) and t.func.attr == "startswith" and isinstance(t.func.value, ast.Call) \
-                and norm(t.func.value.func) == "os.path.relpath" and len(t.func.value.args) == 2 and isinstance(t.args[0], ast.Constant) and t.args[0].value == "..":
-            out.append((n, norm(t.func.value.args[0]), norm(t.func.value.args[1]), "relpath"))
-    return out
+def _leaf_fact(t):
+    """classify one leaf test: (kind, result var, root var, label of the out-edge on which containment is established)"""
+    neg = False
+    while isinstance(t, ast.UnaryOp) and isinstance(t.op, ast.Not):
+        t = t.operand
+        neg = not neg
+
+    def lab(true_establishes):
+        return "T" if true_establishes != neg else "F"
+    # R == root / R != root
+    if isinstance(t, ast.Compare) and len(t.ops) == 1 and isinstance(t.ops[0], (ast.Eq, ast.NotEq)) and isinstance(t.left, ast.Name) and isinstance(t.comparators[0], ast.Name):
+        return ("equal", (t.left.id, t.comparators[0].id), None, lab(isinstance(t.ops[0], ast.Eq)))
+    # R.startswith(root + sep)
+    if isinstance(t, ast.Call) and isinstance(t.func, ast.Attribute) and t.func.attr == "startswith" and isinstance(t.func.value, ast.Name) and len(t.args) == 1:
+        base = _sep_suffix(t.args[0])
+        if base is not None and _base_name(base):
+            return ("under", t.func.value.id, _base_name(base), lab(True))
+        if _base_name(t.args[0]):
+            return ("under-without-separator", t.func.value.id, _base_name(t.args[0]), None)
+    # os.path.commonpath([root, R]) == root
+    if isinstance(t, ast.Compare) and len(t.ops) == 1 and isinstance(t.ops[0], (ast.Eq, ast.NotEq)):
+        for call, other in ((t.left, t.comparators[0]), (t.comparators[0], t.left)):
+            if isinstance(call, ast.Call) and norm(call.func) == "os.path.commonpath" and call.args and isinstance(call.args[0], (ast.List, ast.Tuple)) \
+                    and len(call.args[0].elts) == 2 and isinstance(other, ast.Name):
+                names = [norm(e) for e in call.args[0].elts]
+                if other.id in names:
+                    rest = [x for x in names if x != other.id]
+                    if rest:
+                        return ("commonpath", rest[0], other.id, lab(isinstance(t.ops[0], ast.Eq)))
+    # os.path.relpath(R, root).startswith('..')   (coarse but safe: over-rejects names that begin with two dots)
+    if isinstance(t, ast.Call) and isinstance(t.func, ast.Attribute) and t.func.attr == "startswith" and isinstance(t.func.value, ast.Call) \
+            and norm(t.func.value.func) == "os.path.relpath" and len(t.func.value.args) == 2 and isinstance(t.args[0], ast.Constant) and t.args[0].value == "..":
+        return ("relpath", norm(t.func.value.args[0]), norm(t.func.value.args[1]), lab(False))
+    return None
 
 
 def r1(ctx):
+    """edge cut: with every out-edge removed on which a leaf test establishes `R is root or lies beneath root + separator`,
+    the return of R must be unreachable - whatever boolean structure (and / or / not, nested ifs, early raise) combines the tests"""
     fi = ctx.fn(PJS)
     cfg = cfg_of(fi)
     du = defuse_of(fi)
     rets = [n for n in cfg.stmts((ast.Return,)) if n.ast.value is not None]
     if not ctx.require("C17.R1", fi, "return statement", len(rets), 1):
         return
-    guards = containment_guards(fi)
     root_param, name_param = fi.params[0], fi.params[1]
+    leaves = []
+    for n in cfg.nodes:
+        if n.kind == "test" and n.ast is not None:
+            f = _leaf_fact(n.ast)
+            if f is not None:
+                leaves.append((n, f))
     for r in rets:
         rv = r.ast.value
         if not isinstance(rv, ast.Name):
             ctx.violated("C17.R1", fi, r.ast, "the returned value is not a guarded variable", line=r.lineno)
             continue
+        R = rv.id
+        why = {"tests_found": [(f[0], norm(n.ast)) for n, f in leaves]}
         ok = False
-        why = {"guards_found": [(g[3], g[1], g[2]) for g in guards]}
-        for (g, R, root, form) in guards:
-            if form == "startswith-without-separator":
-                why["rejected"] = "startswith(root) without a trailing separator accepts sibling directories such as <root>x/"
+        roots = set()
+        for n, f in leaves:
+            if f[0] == "equal" and R in f[1]:
+                roots |= set(f[1]) - {R}
+            elif f[0] != "equal" and f[1] == R:
+                roots.add(f[2])
+        for root in sorted(roots):
+            cut = {}
+            for n, f in leaves:
+                if f[3] is None:
+                    continue
+                if (f[0] == "equal" and set(f[1]) == {R, root}) or (f[0] != "equal" and f[1] == R and f[2] == root):
+                    cut[n.id] = f[3]
+            if not cut:
                 continue
-            if R != rv.id:
-                continue
-            tnode = cfg.node_of(g.test.values[0] if isinstance(g.test, ast.BoolOp) else g.test)
-            # the return is reached only through the non-raising outcome of the guard
-            gnodes = [n for n in cfg.nodes if n.kind == "test" and n.stmt is g]
-            raise_nodes = [cfg.node_of(s).id for s in g.body if isinstance(s, ast.Raise)]
-            dominated = all(cfg.dominates(n.id, r.id) for n in gnodes[:1]) and r.id not in cfg.reachable(raise_nodes[0], skip_labels=()) if raise_nodes else False
-            # same definition of R at the guard and at the return; R and root normalised; root derives from the root parameter
-            same = {d[0] for d in du.reaching(R, gnodes[0].id)} == {d[0] for d in du.reaching(R, r.id)} if gnodes else False
-            # (a raw, un-normalised root can only over-reject: a textual prefix of a normalised path is itself normalised)
-            normed = gnodes and _normalised(fi, R, gnodes[0].id, du)
-            # provenance: root <- normaliser(root_param chain), R <- normaliser(join(root, name))
-            why.update({"dominates": bool(dominated), "same_binding": bool(same), "result_normalised": bool(normed)})
-            if dominated and same and normed:
+            reach = cfg.reachable(cfg.entry, edge_ok=lambda a, b_, label: not (a.id in cut and label == cut[a.id]))
+            separated = r.id not in reach
+            # same definition of R at every establishing test and at the return; R normalised
+            at_ret = {d[0] for d in du.reaching(R, r.id)}
+            same = all({d[0] for d in du.reaching(R, nid)} == at_ret for nid in cut)
+            same_root = all({d[0] for d in du.reaching(root, nid)} == {d[0] for d in du.reaching(root, r.id)} for nid in cut)
+            first = sorted(cut)[0]
+            normed = _normalised(fi, R, first, du)
+            why.update({"root": root, "cut": {norm(cfg.nodes[k].ast): v for k, v in cut.items()}, "separates_return": bool(separated), "same_binding": bool(same and same_root),
+                        "result_normalised": bool(normed)})
+            if separated and same and same_root and normed:
                 ok = True
-                ctx.holds("C17.R1", fi, "containment guard (%s) between normalised %s and normalised %s dominates the return" % (form, R, root))
+                ctx.holds("C17.R1", fi, "every path to the return passes a test that establishes: normalised %s is %s or lies beneath %s + separator" % (R, root, root),
+                          "edge cut over %d leaf test(s)" % len(cut))
                 # the joined value really is join(root, filename)
-                rdefs = du.reaching(R, gnodes[0].id)
+                rdefs = du.reaching(R, first)
                 inner = rdefs[0][1].args[0] if rdefs and isinstance(rdefs[0][1], ast.Call) and rdefs[0][1].args else None
                 src = inner
                 if isinstance(inner, ast.Name):
@@ -145,6 +154,8 @@ def r1(ctx):
                 okj = isinstance(src, ast.Call) and norm(src.func) == "os.path.join" and len(src.args) == 2 and norm(src.args[1]) == name_param
                 ctx.check(okj, "C17.R1", fi, "the guarded value is abspath(join(root, filename))", witness=norm(src) if isinstance(src, ast.AST) else None)
                 break
+        if not ok and any(f[0] == "under-without-separator" and f[1] == R for n, f in leaves):
+            why["rejected"] = "startswith(root) without a trailing separator accepts sibling directories such as <root>x/"
         if not ok:
             # alternative (b): dot-component guard and absolute-name guard both dominate the join
             joins = calls_named(fi, "join")
